@@ -735,6 +735,8 @@ def substituted(fn, only=None):
                     uses = [n for n in ast.walk(f) if isinstance(n, ast.Name) and n.id == x and isinstance(n.ctx, ast.Load)]
                     if not uses:
                         continue
+                    if any(_in_closure(u, f) for u in uses):
+                        continue           # a closure reads the variable when it is CALLED: substituting the defining expression there is not equivalent
                     has_call = any(isinstance(n, ast.Call) for n in ast.walk(rhs))
                     if has_call and len(uses) != 1:
                         continue
@@ -797,6 +799,15 @@ def substituted(fn, only=None):
             if changed:
                 break
     return set_parents(ast.fix_missing_locations(f))
+
+
+def _in_closure(node, root) -> bool:
+    n = getattr(node, "_parent", None)
+    while n is not None and n is not root:
+        if isinstance(n, (ast.FunctionDef, ast.AsyncFunctionDef, ast.Lambda)):
+            return True
+        n = getattr(n, "_parent", None)
+    return False
 
 
 def _crosses_effect(between, use) -> bool:
